@@ -33,6 +33,15 @@ theorem regex_compile_preserves (leaf : RegexCond → Bool) (e : RegexExpr) (h :
     Expr.evalOpt leaf (compileRx e) = Expr.eval leaf e :=
   compileRx_eval_aux leaf e h
 
+/-- non-vacuity: the premise of `regex_compile_preserves` holds for a constructor-built tree (an AND of a condition and an OR of two conditions), and the theorem applies to it -/
+example :
+    let e : RegexExpr := .mk "AND" none [.mk "CONDITION" (some ⟨['a'], ['x', '+']⟩) [],
+      .mk "OR" none [.mk "CONDITION" (some ⟨['b'], ['y']⟩) [], .mk "CONDITION" (some ⟨['c', '.', 'd'], []⟩) []]]
+    Expr.Proper e ∧ ∀ leaf, Expr.evalOpt leaf (compileRx e) = Expr.eval leaf e := by
+  intro e
+  have h : Expr.Proper e := by simp [e, Expr.Proper, Expr.ProperL]
+  exact ⟨h, fun leaf => regex_compile_preserves leaf e h⟩
+
 /-- JSON round trip of every bloom / regex / prefilter expression: the decoded tree *is* the
     original tree (hence identical evaluation and identical query results), for all trees including
     empty, nil-condition and unknown nodes, zero-valued operands and nil-vs-empty children. -/
@@ -40,9 +49,24 @@ theorem json_roundtrip_bloom (e : BloomExpr) (fuel : Nat) (hf : Expr.depth e ≤
     decExpr decBloomCond fuel (encExpr encBloomCond e) = some e :=
   roundtrip_expr_aux encBloomCond decBloomCond roundtrip_bloomCond_aux (fun _ => ⟨_, rfl⟩) e fuel hf
 
+/-- non-vacuity: the premise of `json_roundtrip_bloom` holds for a depth-3 tree (conditions of all three kinds, an empty AND, a nil condition) with fuel 4, and the theorem applies to it -/
+example :
+    let e : BloomExpr := .mk "OR" none [.mk "CONDITION" (some ⟨"FIELD", ['a', '.', 'b'], []⟩) [],
+      .mk "AND" none [.mk "CONDITION" (some ⟨"TOKEN", [], ['t']⟩) [], .mk "CONDITION" (some ⟨"FIELD_TOKEN", ['k'], ['v']⟩) [],
+        .mk "AND" none [], .mk "CONDITION" none []]]
+    Expr.depth e = 3 ∧ Expr.depth e ≤ 4 ∧ decExpr decBloomCond 4 (encExpr encBloomCond e) = some e := by
+  intro e; exact ⟨by decide, by decide, json_roundtrip_bloom e 4 (by decide)⟩
+
 theorem json_roundtrip_regex (e : RegexExpr) (fuel : Nat) (hf : Expr.depth e ≤ fuel) :
     decExpr decRegexCond fuel (encExpr encRegexCond e) = some e :=
   roundtrip_expr_aux encRegexCond decRegexCond roundtrip_regexCond_aux (fun _ => ⟨_, rfl⟩) e fuel hf
+
+/-- non-vacuity: the premise of `json_roundtrip_regex` holds for a depth-3 tree (two conditions, a nested OR, a nil condition) with fuel exactly its depth, and the theorem applies to it -/
+example :
+    let e : RegexExpr := .mk "AND" none [.mk "CONDITION" (some ⟨['a'], ['x', '+']⟩) [],
+      .mk "OR" none [.mk "CONDITION" (some ⟨['b'], ['y']⟩) [], .mk "CONDITION" none []]]
+    Expr.depth e = 3 ∧ Expr.depth e ≤ 3 ∧ decExpr decRegexCond 3 (encExpr encRegexCond e) = some e := by
+  intro e; exact ⟨by decide, by decide, json_roundtrip_regex e 3 (by decide)⟩
 
 theorem json_roundtrip_prefilter (e : PreExpr) (fuel : Nat) (hf : Expr.depth e ≤ fuel) :
     decExpr decPreCond fuel (encExpr encPreCond e) = some e :=
